@@ -11,8 +11,8 @@ def extra_jobs(tier):
     import sys
     LD = sys.modules["ctparse.loader"]
     return [
-        Job("C01.result", H, "ob_result", timeout=300,
-            bounds="stream of 0..2 candidates (11 resolution kinds by index, scores symbolic reals in [-1e6, 1e6]), the [None] stream, 12 raw texts incl. empty/label-only, latent on/off",
+        Job("C01.result", H, "ob_result", timeout=900,
+            bounds="stream of 0..2 candidates (6 resolution kinds by index, 2 score values by index; indices symbolic, result construction untraced), the [None] stream, 6 raw texts incl. empty/label-only, latent on/off",
             functions=[fn_id(CT.ctparse), fn_id(CT.CTParse.__str__), fn_id(CT.CTParse.__repr__), fn_id(CT._get_labels)],
             stubs=["ctparse_gen replaced by a scripted stream"], lift="lift_result", site="ctparse"),
         Job("C01.default-scorer", H, "ob_default_scorer", timeout=60, bounds="model file present / absent (symbolic bool)",
